@@ -47,7 +47,7 @@ func (m *MatchALPN) Match(hello *tls.ClientHelloInfo) bool {
 
 	clientProtocols := hello.SupportedProtos
 	for _, alpn := range *m {
-		alpn = repl.ReplaceAll(alpn, "")
+		alpn = repl.ReplaceKnown(alpn, "")
 		for _, clientProtocol := range clientProtocols {
 			if alpn == clientProtocol {
 				return true
